@@ -22,6 +22,11 @@
  *   c <marks...> ; <order...>     white-box collection: set exactly these mark bits, GC_Sweep
  *   g ; <order...>                GC_Mark + GC_Sweep (the real mark phase: roots, anchor, scrubbed stack)
  *   k <ids...>                    the program now holds exactly these objects (anchor)
+ *   m <ids...>                    a mark phase that an exception leaves: GC_Mark runs, the anchor's Mark instance reports these
+ *                                 objects and then throws; GC_Sweep does not follow, the mark bits set so far stay set.  (Needs a
+ *                                 registered anchor.)  Since fix d8f0c4f nothing reads such bits: GC_Mark and GC_Del clear them first
+ *   z <id>                        from now on the destructor of object <id> (kind p, q or b) also issues del(NULL), last
+ *   N                             del(NULL) issued by the program
  *   s | t                         stop / start the collector
  *   e ; <order...>                teardown; the ledger is reported from a destructor-attribute function that runs after
  *                                 Cello_Exit (main) or after join (thread)
@@ -51,6 +56,8 @@ struct Obj {
   int dealloc_registered;   /* the program released it with dealloc while it was registered: KF-C06-dealloc-registered */
   int clobbered;            /* it was waiting on the pending list of a sweep when a nested collection replaced that list */
   int late_child;           /* registered by a destructor during the teardown sweep (after its phase 1): KF-C06-dtor-alloc */
+  int nulldel;              /* its destructor also does del(NULL) */
+  int born;                 /* number of the op during which it was allocated */
 };
 static struct Obj objs[MAXID];
 static int slot_id[NARENA];
@@ -71,6 +78,8 @@ static size_t cur_line = 0;
 static struct GC* the_gc = NULL;             /* the collector of the thread running the history */
 static int marked_now[MAXID], collecting = 0;
 static int thresholded = 0;                  /* the registration of this op ran a threshold collection */
+static int stale_marks = 0;                  /* an abandoned mark phase left bits set and no collection has completed since */
+static int abort_ids[4096], n_abort = 0, abort_armed = 0;   /* op m: what the anchor reports before it throws */
 
 static int id_of(var p) {
   char* c = p;
@@ -107,7 +116,9 @@ static void ledger(char c, var self) {
 static var Arena_Alloc_Probe(void); static var Arena_Alloc_PBox(void); static var Arena_Alloc_Anchor(void); static var Arena_Alloc_QProbe(void);
 static void Arena_Dealloc(var self) { ledger('x', self); }
 static void Probe_New(var self, var args) { struct Probe* p = self; p->id = c_int(get(args, $I(0))); }
-static void Probe_Del(var self) { ledger('f', self); }
+/* the del(NULL) of a destructor declared with op z (GC_Rem_Ptr's NULL guard, fix d3e4e44) */
+static void maybe_del_null(var self) { int id = id_of(self); if (id >= 0 && objs[id].nulldel) del(NULL); }
+static void Probe_Del(var self) { ledger('f', self); maybe_del_null(self); }
 static void q_alloc_child(int cid, int cslot);
 static void QProbe_Del(var self) {
   ledger('f', self);
@@ -115,11 +126,17 @@ static void QProbe_Del(var self) {
   if (id < 0) return;
   if (objs[id].nchild > 0) thresholded = 1;
   for (int i = 0; i < objs[id].nchild; i++) q_alloc_child(objs[id].child[i], objs[id].child_slot[i]);
+  maybe_del_null(self);
 }
 static void PBox_New(var self, var args) { Box_New(self, args); }
-static void PBox_Del(var self) { ledger('f', self); Box_Del(self); }
+static void PBox_Del(var self) { ledger('f', self); Box_Del(self); maybe_del_null(self); }
 static void Anchor_Del(var self) { ledger('f', self); }
 static void Anchor_Mark(var self, var gc, void(*f)(var,void*)) {
+  if (abort_armed) {
+    abort_armed = 0;
+    for (int i = 0; i < n_abort; i++) { var p = objs[abort_ids[i]].ptr; if (p) f(gc, p); }
+    throw(ValueError, "the Mark instance of the anchor throws");
+  }
   for (int i = 0; i < nheld; i++) { var p = objs[held[i]].ptr; if (p) f(gc, p); }
 }
 
@@ -201,7 +218,10 @@ static void print_obs(const char* op, int with_reg) {
       if (regflag[id]) { n += snprintf(obuf + n, sizeof obuf - n, "%s%d%s", first ? "" : ",", id, regflag[id] == 2 ? "r" : ""); first = 0; }
     }
     n += snprintf(obuf + n, sizeof obuf - n, " run=%d mit=%zu", (int)gc->running, gc->mitems);
-    size_t occ = 0; for (size_t i = 0; i < gc->nslots; i++) if (gc->entries[i].hash) { occ++; if (gc->entries[i].marked) X("sig=life-mark-left line=%zu what=mark bit left set after the op", cur_line); }
+    size_t occ = 0, bits = 0; for (size_t i = 0; i < gc->nslots; i++) if (gc->entries[i].hash) { occ++; if (gc->entries[i].marked) bits++; }
+    /* a completed collection leaves no mark bit; only an abandoned mark phase (op m) does, until the next collection */
+    if (bits && !stale_marks) X("sig=life-mark-left line=%zu what=%zu mark bits left set after the op", cur_line, bits);
+    if (!bits) stale_marks = 0;
     if (occ != gc->nitems) X("sig=life-nitems line=%zu what=nitems %zu but %zu occupied slots", cur_line, gc->nitems, occ);
     if (gc->freenum != 0 || gc->freelist != NULL) X("sig=life-pending-left line=%zu what=pending list not released after the op", cur_line);
   }
@@ -263,7 +283,8 @@ static int parse_ids(char** toks, int ntok, int from, int* out, int* nout, int* 
   *nout = n; *next = i; return 1;
 }
 
-static void begin_op(void) { nev = 0; nsnap = -1; collecting = 0; thresholded = 0; }
+static int op_seq = 0;
+static void begin_op(void) { op_seq++; nev = 0; nsnap = -1; collecting = 0; thresholded = 0; }
 
 /* new(Probe) issued by the destructor of a kind-q object */
 __attribute__((noinline)) static void q_alloc_child(int cid, int cslot) {
@@ -273,7 +294,7 @@ __attribute__((noinline)) static void q_alloc_child(int cid, int cslot) {
   struct Obj* o = &objs[cid];
   memset(o, 0, sizeof *o);
   reserved[cid] = 0;
-  o->kind = 'p'; o->how = 's'; o->slot = cslot; o->owned = -1; o->owner = -1; o->allocated = 1;
+  o->kind = 'p'; o->how = 's'; o->slot = cslot; o->owned = -1; o->owner = -1; o->allocated = 1; o->born = op_seq;
   o->stopped_alloc = !gc->running;
   o->late_child = teardown_started;
   if (cid + 1 > nobjs_alloc) nobjs_alloc = cid + 1;
@@ -289,7 +310,7 @@ __attribute__((noinline)) static void q_alloc_child(int cid, int cslot) {
   /* did this registration run a collection?  inside a sweep: the nested GC_Sweep has released the list */
   int collected = in_sweep ? (gc->freelist == NULL) : will_collect;
   if (collected) {
-    thresholded = 1;
+    thresholded = 1; stale_marks = 0;
     if (in_sweep) for (int i = 0; i < nwaiting; i++) objs[waiting[i]].clobbered = 1;
     scrub_stack();
     GC_Mark(gc);
@@ -310,7 +331,7 @@ __attribute__((noinline)) static int do_new(int id, char kind, char how, int slo
   if (kind != 'B') { if (slot < 0 || slot >= NARENA) return 0; }
   if (owned >= 0 && (!objs[owned].allocated || kind == 'p' || kind == 'q' || kind == 'a')) return 0;
   memset(o, 0, sizeof *o);
-  o->kind = kind; o->how = how; o->slot = slot; o->owned = owned; o->owner = -1; o->allocated = 1;
+  o->kind = kind; o->how = how; o->slot = slot; o->owned = owned; o->owner = -1; o->allocated = 1; o->born = op_seq;
   if (owned >= 0) objs[owned].owner = id;
   o->stopped_alloc = !gc->running;
   if (kind == 'B') nB++;
@@ -341,7 +362,7 @@ __attribute__((noinline)) static int do_new(int id, char kind, char how, int slo
     p = how == 's' ? new_with(type, tuple($R(tgt))) : how == 'r' ? new_root_with(type, tuple($R(tgt))) : new_raw_with(type, tuple($R(tgt)));
   }
   if (will_collect) {
-    thresholded = 1;
+    thresholded = 1; stale_marks = 0;
     scrub_stack();
     GC_Mark(gc);
     for (size_t i = 0; i < gc->nslots; i++) if (gc->entries[i].hash && gc->entries[i].ptr == p) gc->entries[i].marked = true;
@@ -379,7 +400,7 @@ __attribute__((noinline)) static void do_collect(int* marks, int nmarks) {
     int id = id_of(gc->entries[i].ptr);
     gc->entries[i].marked = (id >= 0 && marked_now[id]);
   }
-  collecting = 1;
+  collecting = 1; stale_marks = 0;
   GC_Sweep(gc);
 }
 
@@ -391,6 +412,52 @@ __attribute__((noinline)) static void do_gc(void) {
   GC_Mark(gc);
   GC_Sweep(gc);
   gc->bottom = saved;
+  stale_marks = 0;
+}
+
+/* oracle after a collection with the real mark phase from clean frames: what the program cannot reach — not held, not a
+   root, not owned (through Box pointers) by something reachable — must have left the registry.  (Stale mark bits of an
+   abandoned mark phase must not keep garbage alive: fix d8f0c4f.) */
+static void oracle_after_gc(void) {
+  static char reach[MAXID]; static int stack[MAXID];
+  struct GC* gc = the_gc;
+  memset(reach, 0, (size_t)(nobjs_alloc > 0 ? nobjs_alloc : 1));
+  int sp = 0;
+  for (int i = 0; i < nheld; i++) if (!reach[held[i]]) { reach[held[i]] = 1; stack[sp++] = held[i]; }
+  for (size_t i = 0; i < gc->nslots; i++) {
+    if (!gc->entries[i].hash || !gc->entries[i].root) continue;
+    int id = id_of(gc->entries[i].ptr);
+    if (id >= 0 && !reach[id]) { reach[id] = 1; stack[sp++] = id; }
+  }
+  while (sp > 0) {
+    int x = stack[--sp];
+    if (!objs[x].allocated || objs[x].nfree > 0) continue;
+    int y = objs[x].owned;
+    if (y >= 0 && !reach[y]) { reach[y] = 1; stack[sp++] = y; }
+  }
+  for (size_t i = 0; i < gc->nslots; i++) {
+    if (!gc->entries[i].hash || gc->entries[i].root) continue;
+    int id = id_of(gc->entries[i].ptr);
+    if (id >= 0 && objs[id].born == op_seq) continue;     /* allocated by a destructor that this collection ran */
+    if (id >= 0 && !reach[id]) X("sig=life-garbage-kept line=%zu what=object %d, which nothing reaches, is still registered after GC_Mark + GC_Sweep from clean frames", cur_line, id);
+  }
+}
+
+/* a mark phase that an exception leaves: the anchor's Mark instance reports `ids`, then throws */
+__attribute__((noinline)) static void do_mark_abort(int* ids, int n) {
+  var bottom_marker = NULL;
+  struct GC* gc = the_gc;
+  var saved = gc->bottom; gc->bottom = &bottom_marker;
+  scrub_stack();
+  n_abort = n; memcpy(abort_ids, ids, (size_t)n * sizeof(int));
+  abort_armed = 1;
+  var exc;
+  V_TRY(exc, GC_Mark(gc));
+  abort_armed = 0;
+  gc->bottom = saved;
+  size_t bits = 0; for (size_t i = 0; i < gc->nslots; i++) if (gc->entries[i].hash && gc->entries[i].marked) bits++;
+  I("mark-abort line=%zu exc=%s bits=%zu", cur_line, exc ? v_exc_name(exc) : "none", bits);
+  stale_marks = 1;
 }
 
 static char** hist; static size_t hist_n; static size_t* hist_line;
@@ -457,13 +524,29 @@ static int run_history(void) {
     } else if (strcmp(toks[0], "g") == 0) {
       if (!parse_ids(toks, ntok, 1, ids, &n1, &nx) || n1 != 0 || !parse_ids(toks, ntok, nx, ids2, &n2, &nx)) { O("bad-op"); continue; }
       do_gc();
-      oracle_after_op(); print_obs("g", 1);
+      oracle_after_op(); oracle_after_gc(); print_obs("g", 1);
     } else if (strcmp(toks[0], "k") == 0) {
       if (!parse_ids(toks, ntok, 1, ids, &n1, &nx)) { O("bad-op"); continue; }
       int ok = 1; for (int i = 0; i < n1; i++) if (!objs[ids[i]].allocated) ok = 0;
       if (!ok) { O("bad-op"); continue; }
       nheld = n1; memcpy(held, ids, n1 * sizeof(int));
       print_obs("k", 1);
+    } else if (strcmp(toks[0], "m") == 0) {
+      if (!parse_ids(toks, ntok, 1, ids, &n1, &nx) || nx != ntok) { O("bad-op"); continue; }
+      int ok = 1; for (int i = 0; i < n1; i++) if (!objs[ids[i]].allocated) ok = 0;
+      int anchor = 0;
+      for (int i = 0; i < nobjs_alloc; i++) if (objs[i].allocated && objs[i].kind == 'a' && objs[i].ptr && objs[i].nfree == 0 && GC_Mem_Ptr(the_gc, objs[i].ptr)) anchor = 1;
+      if (!ok || !anchor) { O("bad-op"); continue; }
+      do_mark_abort(ids, n1);
+      oracle_after_op(); print_obs("m", 1);
+    } else if (strcmp(toks[0], "z") == 0 && ntok == 2) {
+      char* e1; long id = strtol(toks[1], &e1, 10);
+      if (*e1 || id < 0 || id >= MAXID || !objs[id].allocated || !objs[id].kind || !strchr("pqb", objs[id].kind)) { O("bad-op"); continue; }
+      objs[id].nulldel = 1;
+      print_obs("z", 1);
+    } else if (strcmp(toks[0], "N") == 0 && ntok == 1) {
+      del(NULL);
+      oracle_after_op(); print_obs("N", 1);
     } else if (strcmp(toks[0], "s") == 0 && ntok == 1) {
       stop(current(GC)); print_obs("s", 1);
     } else if (strcmp(toks[0], "t") == 0 && ntok == 1) {
